@@ -187,6 +187,18 @@ theorem cancel_last_newest (s : TSt) (limit c k t0 : Nat)
   rw [if_pos hfull]
   simp only [ht]
 
+/-- ... and the victim gets its `CancelledError` before the new coroutine takes its first step: a victim that is
+waiting (suspended in an `await`) is woken first, the first step of the new task is scheduled behind it, so more
+than `limit` coroutine bodies are never live -/
+theorem victim_cancelled_before_replacement (s : TSt) (limit c k t0 : Nat) (rest : List Nat)
+    (hk : s.kind = .limitingPar limit .cancelFirst) (hfull : s.tracked.length ≥ limit) (ht : s.tracked = t0 :: rest)
+    (hsus : (s.task t0).status = .suspended) (hnc : (s.task t0).cancelReq = false) :
+    (submit s c k).ready = s.ready ++ [.resumeCancel t0, .step s.tasks.length] := by
+  rw [cancel_first_oldest s limit c k t0 rest hk hfull ht]
+  have ht0 : ({ s with tracked := rest } : TSt).task t0 = s.task t0 := rfl
+  simp only [TSt.cancelTask, ht0, hsus, hnc, TSt.createTask, TSt.setTask]
+  simp
+
 /-- a finished task frees its slot: the done callback removes it from the tracked tasks -/
 theorem slot_freed (s : TSt) (limit : Nat) (p : ParPolicy) (t : Nat) (hk : s.kind = .limitingPar limit p) :
     (managerDone s t).tracked = s.tracked.erase t := by
